@@ -20,9 +20,20 @@ def getPairs (j : Json) (k : String) : Except String (List (Bytes × Bytes)) := 
 
 def jpairs (ps : List (Bytes × Bytes)) : Json := Json.arr (ps.map fun p => Json.arr #[jhex p.1, jhex p.2]).toArray
 
+def getOptBytes (j : Json) (k : String) : Except String (Option Bytes) :=
+  match j.getObjVal? k with
+  | .ok (Json.str t) => do pure (some (← unhex t))
+  | _ => pure none
+
+/-- `query`: explicit pairs, or — when `list` is present — the dict `_list_objects` builds for (`token`, `prefix`) -/
+def getQuery (j : Json) : Except String (List (Bytes × Bytes)) := do
+  match j.getObjVal? "list" with
+  | .ok _ => pure (listQuery (← getOptBytes j "token") (← getBytes j "prefix"))
+  | .error _ => getPairs j "query"
+
 def getInputs (j : Json) : Except String Inputs := do
   pure { method := ← getBytes j "method", host := ← getBytes j "host", scheme := ← getBytes j "scheme",
-         path := ← getBytes j "path", query := ← getPairs j "query", payloadDigest := ← getBytes j "payload_digest",
+         path := ← getBytes j "path", query := ← getQuery j, payloadDigest := ← getBytes j "payload_digest",
          amzDate := ← getBytes j "amz_date", date := ← getBytes j "date", region := ← getBytes j "region",
          keyId := ← getBytes j "key_id", secret := ← getBytes j "secret" }
 
@@ -72,9 +83,7 @@ def handleSigV4 (op : String) (j : Json) : Except String Json := do
     pure (Json.mkObj [("host", jhex (httpxHost scheme host)), ("normal", Json.bool (hostIsNormal scheme host))])
   | "sigv4.list_query" =>
     let pfx ← getBytes j "prefix"
-    let tok ← match j.getObjVal? "token" with
-      | .ok (Json.str t) => pure (some (← unhex t))
-      | _ => pure none
+    let tok ← getOptBytes j "token"
     pure (Json.mkObj [("query", jpairs (listQuery tok pfx))])
   | "sigv4.sign" =>
     let i ← getInputs j
